@@ -54,9 +54,11 @@ pub enum Kind {
     SExtendRef,
     /// not in ALL_KINDS: only profiles that ask for it get it
     BigDisjoint,
+    FmtIrreflexive,
+    Transfer,
 }
 
-pub const ALL_KINDS: [Kind; 46] = [
+pub const ALL_KINDS: [Kind; 47] = [
     Kind::Insert,
     Kind::InsertKv,
     Kind::Checked,
@@ -103,6 +105,7 @@ pub const ALL_KINDS: [Kind; 46] = [
     Kind::DefaultIter,
     Kind::SDiffRef,
     Kind::SExtendRef,
+    Kind::Transfer,
 ];
 
 /// Per-property generation profile.
@@ -148,7 +151,7 @@ pub fn boost(mut w: Vec<(Kind, u32)>, kinds: &[Kind], weight: u32) -> Vec<(Kind,
 }
 
 /// (shape, N, M) combinations the executor is monomorphised for.
-pub const MENU: [(Shape, usize, usize); 39] = [
+pub const MENU: [(Shape, usize, usize); 40] = [
     (Shape::Small, 0, 0),
     (Shape::Small, 0, 2),
     (Shape::Small, 1, 1),
@@ -188,6 +191,7 @@ pub const MENU: [(Shape, usize, usize); 39] = [
     (Shape::Large, 1, 4),
     (Shape::ZstVal, 0, 1),
     (Shape::Aligned, 3, 2),
+    (Shape::Small, 300, 3),
 ];
 
 pub struct G<'a> {
@@ -275,7 +279,7 @@ impl G<'_> {
             0 => self.r.below(cap as u64 + 1) as usize,
             1 => cap,
             2 => cap + 1 + self.r.below(3) as usize,
-            3 => cap * 3 + self.r.below(5) as usize,
+            3 => (cap * 3).min(cap + 64) + self.r.below(5) as usize,
             _ => self.r.below(6) as usize,
         };
         let span = match self.r.below(3) {
@@ -434,6 +438,7 @@ impl G<'_> {
                         ser_fail_at: if faults && self.r.chance(1, 3) { Some(self.r.below(20) as u16) } else { None },
                         de_fail_at: if faults && self.r.chance(1, 3) { Some(self.r.below(10) as u16) } else { None },
                         dup_at: if faults && self.r.chance(1, 2) { Some(self.r.below(40) as u16) } else { None },
+                        in_place: self.r.chance(1, 4),
                     },
                 }
             }
@@ -467,6 +472,8 @@ impl G<'_> {
                 Op::SDiffRef { a: t, b: self.t(), how }
             }
             Kind::BigDisjoint => Op::BigDisjoint { fill: if self.r.chance(1, 2) { 256 } else { self.r.below(257) as u16 }, sel: self.r.below(8) as u8 },
+            Kind::FmtIrreflexive => Op::FmtIrreflexive { n: self.r.below(7) as u8, map: self.r.chance(1, 3), style: [Style::Debug, Style::Alt, Style::Display][self.r.below(3) as usize], spec: if self.r.chance(1, 2) { 0 } else { self.r.below(8) as u8 } },
+            Kind::Transfer => Op::Transfer { from: t, how: self.r.below(6) as u8 },
             Kind::SExtendRef => {
                 let items = self.items(t);
                 let src = self.src(items.len());
@@ -521,8 +528,11 @@ pub fn lie_menu(r: &mut SplitMix) -> Lie {
 /// The base plan of run `run` of a check: configuration and history, no faults yet.
 pub fn base_plan(seed: u64, prop_no: u64, run: u64, p: &Profile) -> Plan {
     let mut r = SplitMix(mix(seed, prop_no, run));
-    let menu: Vec<&(Shape, usize, usize)> = MENU.iter().filter(|(s, _, _)| !p.no_heap_shapes || *s != Shape::Boxed).collect();
-    let (shape, n, m) = *menu[r.below(menu.len() as u64) as usize];
+    // the large-capacity entries are expensive (every step is linear or quadratic in the fill level):
+    // they are drawn for one run in 150, the rest of the menu uniformly
+    let menu: Vec<&(Shape, usize, usize)> = MENU.iter().filter(|(s, n, _)| (!p.no_heap_shapes || *s != Shape::Boxed) && *n < 100).collect();
+    let big: Vec<&(Shape, usize, usize)> = MENU.iter().filter(|(_, n, _)| *n >= 100).collect();
+    let (shape, n, m) = if !big.is_empty() && r.chance(1, 150) { *big[r.below(big.len() as u64) as usize] } else { *menu[r.below(menu.len() as u64) as usize] };
     let u = 1 + r.below(n.max(m) as u64 + 3) as u32;
     // swarm: each run enables a random subset of the profile's operation kinds
     let mut enabled: Vec<(Kind, u32)> = p.weights.iter().filter(|_| r.chance(3, 5)).cloned().collect();
